@@ -425,6 +425,141 @@ func runHPPS(nalu []byte, arg string) (r result) {
 	return r
 }
 
+// flatHPPS2 = flatHPPS followed by the multilayer and 3D extensions (kind HPPS2, model C15Hevc2Model).
+// The octants are listed by key (idxShiftY, idxCb, idxCr); the reference location offsets through the
+// map, in the order of RefLocOffsetLayerIds.
+func flatHPPS2(p *hevc.PPS) *flat {
+	f := flatHPPS(p)
+	if m := p.MultilayerExtension; m == nil {
+		f.u("MultilayerExtension.present", 0)
+	} else {
+		f.u("MultilayerExtension.present", 1)
+		f.b("Ml.PocResetInfoPresentFlag", m.PocResetInfoPresentFlag)
+		f.b("Ml.InferScalingListFlag", m.InferScalingListFlag)
+		f.u("Ml.ScalingListRefLayerId", uint64(m.ScalingListRefLayerId))
+		f.u("Ml.NumRefLocOffsets", uint64(m.NumRefLocOffsets))
+		f.u("Ml.RefLocOffsetLayerIds.len", uint64(len(m.RefLocOffsetLayerIds)))
+		for i, id := range m.RefLocOffsetLayerIds {
+			o := m.RefLocOffsets[id]
+			n := fmt.Sprintf("Ml.RefLocOffsets[%d]", i)
+			f.u(n+".LayerId", uint64(id))
+			f.b(n+".ScaledRefLayerOffsetPresentFlag", o.ScaledRefLayerOffsetPresentFlag)
+			f.i(n+".ScaledRefLayerLeftOffset", int64(o.ScaledRefLayerLeftOffset))
+			f.i(n+".ScaledRefLayerTopOffset", int64(o.ScaledRefLayerTopOffset))
+			f.i(n+".ScaledRefLayerRightOffset", int64(o.ScaledRefLayerRightOffset))
+			f.i(n+".ScaledRefLayerBottomOffset", int64(o.ScaledRefLayerBottomOffset))
+			f.b(n+".RefRegionOffsetPresentFlag", o.RefRegionOffsetPresentFlag)
+			f.i(n+".RefRegionLeftOffset", int64(o.RefRegionLeftOffset))
+			f.i(n+".RefRegionTopOffset", int64(o.RefRegionTopOffset))
+			f.i(n+".RefRegionRightOffset", int64(o.RefRegionRightOffset))
+			f.i(n+".RefRegionBottomOffset", int64(o.RefRegionBottomOffset))
+			f.b(n+".ResamplePhaseSetPresentFlag", o.ResamplePhaseSetPresentFlag)
+			f.u(n+".PhaseHorLuma", uint64(o.PhaseHorLuma))
+			f.u(n+".PhaseVerLuma", uint64(o.PhaseVerLuma))
+			f.u(n+".PhaseHorChromaPlus8", uint64(o.PhaseHorChromaPlus8))
+			f.u(n+".PhaseVerChromaPlus8", uint64(o.PhaseVerChromaPlus8))
+		}
+		f.b("Ml.ColourMappingEnabledFlag", m.ColourMappingEnabledFlag)
+		if c := m.ColourMappingTable; c == nil {
+			f.u("Ml.ColourMappingTable.present", 0)
+		} else {
+			f.u("Ml.ColourMappingTable.present", 1)
+			f.u("Cm.NumCmRefLayersMinus1", uint64(c.NumCmRefLayersMinus1))
+			f.u("Cm.RefLayerId.len", uint64(len(c.RefLayerId)))
+			for i, x := range c.RefLayerId {
+				f.u(fmt.Sprintf("Cm.RefLayerId[%d]", i), uint64(x))
+			}
+			f.u("Cm.OctantDepth", uint64(c.OctantDepth))
+			f.u("Cm.YPartNumLog2", uint64(c.YPartNumLog2))
+			f.u("Cm.LumaBitDepthCmInputMinus8", uint64(c.LumaBitDepthCmInputMinus8))
+			f.u("Cm.ChromaBitDepthCmInputMinus8", uint64(c.ChromaBitDepthCmInputMinus8))
+			f.u("Cm.LumaBitDepthCmOutputMinus8", uint64(c.LumaBitDepthCmOutputMinus8))
+			f.u("Cm.ChromaBitDepthCmOutputMinus8", uint64(c.ChromaBitDepthCmOutputMinus8))
+			f.u("Cm.ResQuantBits", uint64(c.ResQuantBits))
+			f.u("Cm.DeltaFlcBitsMinus1", uint64(c.DeltaFlcBitsMinus1))
+			f.i("Cm.AdaptThresholdUDelta", int64(c.AdaptThresholdUDelta))
+			f.i("Cm.AdaptThresholdVDelta", int64(c.AdaptThresholdVDelta))
+			type okey struct{ y, cb, cr uint64 }
+			keys := make([]okey, 0, len(c.Octants))
+			byKey := map[okey][4]hevc.Octant{}
+			for k, v := range c.Octants {
+				var kk okey
+				fmt.Sscanf(k, "%d-%d-%d", &kk.y, &kk.cb, &kk.cr)
+				keys = append(keys, kk)
+				byKey[kk] = v
+			}
+			sort.Slice(keys, func(i, j int) bool {
+				a, b := keys[i], keys[j]
+				if a.y != b.y {
+					return a.y < b.y
+				}
+				if a.cb != b.cb {
+					return a.cb < b.cb
+				}
+				return a.cr < b.cr
+			})
+			f.u("Cm.Octants.len", uint64(len(keys)))
+			for i, k := range keys {
+				n := fmt.Sprintf("Cm.Octants[%d]", i)
+				f.u(n+".idxShiftY", k.y)
+				f.u(n+".idxCb", k.cb)
+				f.u(n+".idxCr", k.cr)
+				o := byKey[k]
+				for j := 0; j < 4; j++ {
+					f.b(fmt.Sprintf("%s[%d].CodedResFlag", n, j), o[j].CodedResFlag)
+					for cc := 0; cc < 3; cc++ {
+						f.u(fmt.Sprintf("%s[%d].ResCoeffQ[%d]", n, j, cc), uint64(o[j].CodedRes[cc].ResCoeffQ))
+						f.u(fmt.Sprintf("%s[%d].ResCoeffR[%d]", n, j, cc), uint64(o[j].CodedRes[cc].ResCoeffR))
+						f.b(fmt.Sprintf("%s[%d].ResCoeffS[%d]", n, j, cc), o[j].CodedRes[cc].ResCoeffS)
+					}
+				}
+			}
+		}
+	}
+	if d := p.D3Extension; d == nil {
+		f.u("D3Extension.present", 0)
+	} else {
+		f.u("D3Extension.present", 1)
+		f.b("D3.DltsPresentFlag", d.DltsPresentFlag)
+		f.u("D3.NumDepthLayersMinus1", uint64(d.NumDepthLayersMinus1))
+		f.u("D3.BitDepthForDepthLayersMinus8", uint64(d.BitDepthForDepthLayersMinus8))
+		f.u("D3.DepthLayers.len", uint64(len(d.DepthLayers)))
+		for i, l := range d.DepthLayers {
+			n := fmt.Sprintf("D3.DepthLayers[%d]", i)
+			f.b(n+".DltFlag", l.DltFlag)
+			f.b(n+".DltPredFlag", l.DltPredFlag)
+			f.b(n+".DltValFlagsPresentFlag", l.DltValFlagsPresentFlag)
+			flatBools(f, n+".DltValueFlag", l.DltValueFlag)
+			if dd := l.DeltaDlt; dd == nil {
+				f.u(n+".DeltaDlt.present", 0)
+			} else {
+				f.u(n+".DeltaDlt.present", 1)
+				f.u(n+".NumValDeltaDlt", uint64(dd.NumValDeltaDlt))
+				f.u(n+".MaxDiff", uint64(dd.MaxDiff))
+				f.u(n+".MinDiffMinus1", uint64(dd.MinDiffMinus1))
+				f.u(n+".DeltaDltVal0", uint64(dd.DeltaDltVal0))
+				flatUints(f, n+".DeltaValDiffMinusMin", dd.DeltaValDiffMinusMin)
+			}
+		}
+	}
+	return f
+}
+
+func runHPPS2(nalu []byte, arg string) (r result) {
+	p := hx.Try(func() {
+		s, err := hevc.ParsePPSNALUnit(hx.Exact(nalu), hevcSpsIDMap(arg))
+		if err != nil {
+			r = result{outcome: "err", errStr: err.Error()}
+			return
+		}
+		r = result{outcome: "ok", f: flatHPPS2(s)}
+	})
+	if p != "" {
+		r = result{outcome: "panic", errStr: p}
+	}
+	return r
+}
+
 // hevcMapsOf replays the history of an HSLICE case on the real API (see mapsOf).
 func hevcMapsOf(arg string) (map[uint32]*hevc.SPS, map[uint32]*hevc.PPS) {
 	spsMap := map[uint32]*hevc.SPS{}
@@ -745,6 +880,8 @@ func runHevcCase(c caseLine, nalu []byte) result {
 		return runHSPS(nalu)
 	case "HPPS":
 		return runHPPS(nalu, c.arg)
+	case "HPPS2":
+		return runHPPS2(nalu, c.arg)
 	case "HSLICE":
 		return runHSlice(nalu, c.arg)
 	case "HCONF":
@@ -762,7 +899,7 @@ func hevcSiteOf(kind string) string {
 	switch kind {
 	case "HSPS":
 		return "hevc.ParseSPSNALUnit"
-	case "HPPS":
+	case "HPPS", "HPPS2":
 		return "hevc.ParsePPSNALUnit"
 	case "HSLICE":
 		return "hevc.ParseSliceHeader"
